@@ -138,14 +138,6 @@ theorem walkBool_confined (k : BoolK) : ∀ es, ∀ a ∈ (walkBool T env k es).
       · exact walkBool_confined _ _
 end
 
-theorem walkToolKws_confined : ∀ kn kv, ∀ a ∈ (walkToolKws T env kn kv).1, Allowed T env a
-  | some n :: ns, e :: es => by
-    unfold walkToolKws
-    exact bind_all _ _ _ (walk_confined T env e) fun v => bind_all _ _ _ (walkToolKws_confined ns es) fun r => by simp
-  | none :: ns, _ :: es => by unfold walkToolKws; exact walkToolKws_confined ns es
-  | [], _ => by simp [walkToolKws]
-  | _ :: _, [] => by simp [walkToolKws]
-
 /-! #### linear work: `|trace| ≤ 3 · nodes − 2` -/
 
 theorem nodes_pos : ∀ e : Expr, 1 ≤ e.nodes := by
@@ -422,5 +414,18 @@ theorem val_lt_budget : ∀ e : IExpr, e.powFree = true → e.val < 2 ^ e.budget
 theorem two_pow_le_pow_val (a b : IExpr) (h : 2 ≤ a.val) : 2 ^ b.val ≤ (IExpr.pow a b).val := by
   show 2 ^ b.val ≤ a.val ^ b.val
   exact Nat.pow_le_pow_left h _
+
+/-- a `**mapping` argument among the keywords makes the keyword evaluation fail (lists of equal length, as the parser
+    produces them) -/
+theorem walkKws_star_fails (T : Tables) (env : Env) :
+    ∀ (kn : List (Option String)) (kv : List Expr), none ∈ kn → kn.length = kv.length → (walkKws T env kn kv).failed
+  | [], _, h, _ => by simp at h
+  | _ :: _, [], _, hl => by simp at hl
+  | none :: _, _ :: _, _, _ => by unfold walkKws; exact R.failed_fail _
+  | some n :: ns, e :: es, h, hl => by
+    unfold walkKws
+    have h' : none ∈ ns := by simpa using h
+    have hl' : ns.length = es.length := by simpa using hl
+    exact R.bind_failed_right _ _ fun v => R.bind_failed_left _ _ (walkKws_star_fails T env ns es h' hl')
 
 end Operon.Mito
